@@ -97,7 +97,10 @@ def setup_worker(ctx):
             rec = _hook["active"]
             if rec is not None:
                 # append-only at the hook: the write must start at the current end of the file
-                pos, size = self.file_obj.tell(), os.fstat(self.file_obj.fileno()).st_size
+                try:
+                    pos, size = self.file_obj.tell(), os.fstat(self.file_obj.fileno()).st_size
+                except (ValueError, OSError, AttributeError):
+                    pos = size = None      # the writer holds no open descriptor at this moment: the snapshots taken after the write decide
                 if pos != size:
                     rec.setdefault("__not_at_eof__", []).append((self.files[0], _name, pos, size))
             r = _orig(self, arg)
